@@ -52,6 +52,14 @@ class Ctx:
         self.opts: Dict[str, Any] = case.get("opts", {})
         self.hostile = any(isinstance(x, dict) and "hostile" in x for x in (case.get("controller") or {}).get("stack", []))
         self.builtin_only = all(isinstance(x, str) and x in ("Dispatcher", "ChargingFleetManager") for x in (case.get("controller") or {}).get("stack", ["Dispatcher", "ChargingFleetManager"]))
+        # trips are handed out by the built-in dispatcher alone (other generators may interrupt, stop or redirect vehicles,
+        # but never send one to a request)
+        self.trips_builtin = all(
+            (isinstance(x, str) and x in ("Dispatcher", "ChargingFleetManager"))
+            or (isinstance(x, dict) and "hostile" in x and x["hostile"].get("kinds") and "DispatchTrip" not in x["hostile"]["kinds"])
+            or (isinstance(x, dict) and "benign_queue" in x)
+            for x in (case.get("controller") or {}).get("stack", ["Dispatcher", "ChargingFleetManager"])
+        )
 
     def violate(self, prop: str, mechanism: str, msg: str, **witness):
         key = (prop, mechanism)
@@ -155,6 +163,23 @@ def cosim_ops(ctx: Ctx, rp, k: int):
         return rp
     r = C._rng(ctx.case.get("case_seed", 0), "cosim", k)
     kind = r.choice(o.get("kinds", ["scale_rate"]))
+    if kind == "change_request_membership":
+        # the operator opens a waiting request to one more fleet (Request.add_membership + modify_entities), preferably
+        # one that already has a vehicle on its way
+        fids = sorted(f for f in rp.e.fleet_ids if f is not None)
+        reqs = rp.s.get_requests()
+        if not fids or not reqs:
+            return rp
+        assigned = [q for q in reqs if q.dispatched_vehicle is not None]
+        q = r.choice(assigned) if assigned and r.random() < 0.8 else r.choice(list(reqs))
+        fid = r.choice(fids)
+        res = modify_entities_safe(rp, [q.add_membership(fid) if r.random() < 0.5 else q.set_membership(tuple(sorted(set(q.membership.memberships) | {fid})))])
+        if isinstance(res, Failure):
+            return rp
+        ctx.count("cosim_change_request_membership")
+        if q.dispatched_vehicle is not None:
+            ctx.count("cosim_change_membership_of_assigned_request")
+        return res.unwrap()
     if kind == "change_membership":
         # the operator moves a vehicle to another fleet (Vehicle.set_membership + modify_entities); private home-base
         # memberships are kept
